@@ -160,8 +160,9 @@ def run_engine(spec, seed, tier, outdir, only=None, count_mult=1):
     if only is not None:
         cmd += ["--only", str(only)]
     rc, out = sh(cmd, timeout=3000)
-    meta = os.path.join(outdir, spec.get("prefix", spec["engine"]) + ".json")
-    if rc != 0 or not os.path.exists(meta):
+    metas = [f for f in glob.glob(os.path.join(outdir, "*.json"))]
+    meta = metas[0] if metas else ""
+    if rc != 0 or not meta:
         return None, "engine %s failed (rc=%d): %s" % (spec["engine"], rc, out[-2000:])
     return json.load(open(meta)), out
 
@@ -276,12 +277,12 @@ def check_property(pid, tier, seed, replay=None):
     rounds = [(seed, 1)]
     engines = cfg["engines"]
     if replay:
-        engines = [e for e in engines if e.get("prefix", e["engine"]) == replay_engine] or engines
+        engines = [e for e in engines if e.get("name", e["engine"]) == replay_engine] or engines
 
     def run_round(rseed, mult, tag):
         nonlocal evaluations, distinct_nt
         for es in engines:
-            d = os.path.join(outdir, "%s_%s" % (es.get("prefix", es["engine"]), tag))
+            d = os.path.join(outdir, "%s_%s" % (es.get("name", es["engine"]), tag))
             meta, out = run_engine(es, rseed, tier, d, only=only, count_mult=mult)
             if meta is None:
                 corr_errors.append(out)
@@ -298,7 +299,7 @@ def check_property(pid, tier, seed, replay=None):
             evs = meta["evals"]
             for k, name in enumerate(evs):
                 for i in ids[k]:
-                    rec = {"engine": es.get("prefix", es["engine"]), "seed": rseed, "tier": tier, "case_id": i,
+                    rec = {"engine": es.get("name", es["engine"]), "seed": rseed, "tier": tier, "case_id": i,
                            "eval": name, "case": byid.get(i)}
                     (spec_fail if "spec" in name else mismatch).append(rec)
 
